@@ -421,4 +421,6 @@ def run(ctx):
     from . import c18
     from .common import shared
 
+    from . import c14 as _c14
+    shared(ctx, "C13.a", _c14.rule_b, why="restoration and model stages are commonly CombinedModel objects: the documented stage order holds only if a combined model is the sequential composition of its parts for every signal (an all-zero one included)")
     shared(ctx, "C13.d", c18.rule_a, why="the result image is constructed from probe.metadata(); every key must round-trip through the constructor unchanged")
